@@ -10,6 +10,11 @@ sends each source's value once, rule tables and open flags == the model's.
 
 Part 2 (when `tlc` is on PATH): the complete state graph of tla/Router.tla is dumped by TLC and EVERY edge is replayed
 against the real hub (oracles/tlc_bridge.py); the Python reference model is checked against the same graph.
+TLC runs in the background while Part 1 explores.  Without `tlc` the check is Part 1 alone and says so in its evidence.
+
+Bounds: quick = depth 4 on two endpoints (doubles a,b; double a + UDP u), TLC with tla/RouterQuick.cfg;
+thorough = depth 6 on a,b, depth 5 on a,u, depth 4 on a,b,u, depth 6 on a single endpoint, TLC with tla/Router.cfg
+(VERIF_C19_DEPTH=<n> overrides the depth of the a,b run).
 """
 import functools
 import json
@@ -509,7 +514,7 @@ def run(ctx):
     ctx.level = "model_checking"
     thorough = ctx.tier == "thorough"
     full = "full" if thorough else "lean"
-    plan = [("dbl2", 6), ("udp2", 6), ("mix3", 4)] if thorough else [("dbl2", 4), ("udp2", 4)]
+    plan = [("dbl2", 6), ("udp2", 5), ("mix3", 4), ("dbl1", 6)] if thorough else [("dbl2", 4), ("udp2", 4)]
     if thorough and os.environ.get("VERIF_C19_DEPTH"):
         plan[0] = ("dbl2", int(os.environ["VERIF_C19_DEPTH"]))
     results = []
@@ -546,8 +551,8 @@ def run(ctx):
             tb.abort_tlc(handle)
     _diverse_first(ctx)
     cov["rule"] = ("BFS over histories of hub calls on the real Comms with endpoint doubles / a UDPObject on a fake socket; "
-                   "alphabet = {setForwardData, deleteForwardingRule} x names^2, setDataSink x names x {k1,k2,None}, "
-                   "setDataSource, getData x {message, no data, empty message (+1 seeded text)}, sendData, open/closeCom, "
+                   "alphabet = {setForwardData, deleteForwardingRule} x names^2, setDataSink x names x {k1,k2} (+ a None "
+                   "handle), setDataSource x names x {s1} (+ None), getData x {message, no data, empty message (+1 seeded text)}, sendData, open/closeCom, "
                    "spin(1), spin(2) x every message/no-data script over the receive positions; names = endpoints + one "
                    "unknown name; every transition judged against oracles/router_model.py; "
                    "then every edge of TLC's state graph of tla/Router.tla replayed on the real hub")
